@@ -1177,6 +1177,9 @@ def r04f(an, rep, rule="R04.W", roundtrip=False):
         ("a function under `from __future__ import annotations`", FN + ("NOFREE", "annotations"), 1, 0, 0, ("a",), (None,), (), "f", ((), ("a",), None, (), None), None, None),
         ("a module whose first instruction is one line above co_firstlineno", ("NOFREE",), 0, 0, 0, (), (1, None), (), "<module>", "nofunc", None, None),
         ("a class body that owns the __class__ cell", (), 0, 0, 0, (), ("C", None), ("__class__",), "C", "nofunc", None, None),
+        # 3.7 - 3.9: a statement the compiler removed behind the last `return` leaves a co_lnotab entry at len(co_code); with co_firstlineno = 3
+        # it only reads back when the trailing line is made relative together with every other line
+        ("a function whose line table ends in an entry behind the last instruction", FN + ("NOFREE",), 1, 0, 0, ("a",), (None,), (), "f", ((), ("a",), None, (), None), None, None),
         ("a function whose constant is a string with a lone surrogate", FN + ("NOFREE",), 0, 0, 0, (), (None, "\ud83d x"), (), "f", ((), (), None, (), None), None, None),
         ("a function whose constant is a tuple with bytes, -0.0 and a surrogate inside", FN + ("NOFREE",), 0, 0, 0, (), (None, (b"\xff", -0.0, ("\udcff",), frozenset({1.0}))), (), "f", ((), (), None, (), None), None, None),
         ("a class body inside a function that reads a local of that function", ("NESTED",), 0, 0, 0, (), ("C", None), ((), ("x",)), "C", "nofunc", None, None),
@@ -1223,7 +1226,7 @@ def r04f(an, rep, rule="R04.W", roundtrip=False):
             if V >= (3, 10):
                 code["co_linetable"] = asm_linetable([(0, -1 if above_first else 0)] + ([(2, 0)] if above_first else []), len(codeb))
             else:
-                code["co_lnotab"] = bytes([0, 255, 2, 1]) if above_first else b""
+                code["co_lnotab"] = bytes([0, 255, 2, 1]) if above_first else (bytes([0, 1, len(codeb), 1]) if "an entry behind the last instruction" in wname else b"")
             def from_flags(names_):
                 w_ = 0
                 for n_ in names_:
